@@ -10,3 +10,4 @@ def check(ck):
     ck.run(H.check_ordered_iteration, ck, "C03.R2")
     ck.run(H.check_update_protocol, ck, "C03.R3")
     ck.run(H.check_descent_complete, ck, "C03.R4")
+    ck.run(H.check_definition_order_independence, ck, "C03.R5")
